@@ -10,8 +10,8 @@ PROP = "C14"
 
 def body():
     S.store_check(
-        PROP, model_cfgs=["StoreC14.cfg"], gen_cfgs=["StoreGenC14.cfg"], quick_n=700, thorough_n=7000,
-        kinds_note="bridge", invs=["HaltedStops", "Inv"],
+        PROP, model_cfgs=["StoreC14.cfg", "StoreL1.cfg"], gen_cfgs=["StoreGenC14.cfg", "StoreGenL1C04.cfg"], quick_n=400, thorough_n=6000,
+        kinds_note="bridge (deposit-count gap), l1info (announced-root mismatch)", invs=["HaltedStops", "Inv"],
         assumptions=["detection is what the node itself reports (ProcessBlock answers the inconsistency error without an injected fault); a process restart starts a new, not yet halted syncer", "non-data methods (allow list in harness/areas/store): Start, OriginNetwork, BlockFinality, GetLastReorgEvent; every other exported method must refuse while halted"])
 
 
